@@ -248,4 +248,72 @@ Proof.
   destruct H1 as (A1 & B1 & C1). destruct H2 as (A2 & B2 & C2). repeat split; congruence.
 Qed.
 
+(* FetchMatchingRules with the working memory, from any memory contents, answers like the from-scratch fetch *)
+Theorem fetch_refines_spec_from : forall reterr order (u : estate) es,
+  es_fx u = [] ->
+  let '(u1, r1) := fetch estate (rule_cond allvars meth panics_inside rules) reset_all reterr order u es in
+  let '(f2, r2) := fetch facts (spec_cond meth rules) (fun f => f) reterr order (es_facts u) es in
+  r1 = r2 /\ es_facts u1 = f2.
+Proof.
+  intros reterr order u es Hfx.
+  pose proof (fetch_sim estate facts (rule_cond allvars meth panics_inside rules) (spec_cond meth rules) R cond_refines
+                reset_all (fun f => f) reterr order u (es_facts u) es) as H.
+  assert (Hi: R (reset_all u) (es_facts u)).
+  { unfold R, reset_all; simpl. repeat split; auto; simpl; intros; contradiction. }
+  specialize (H Hi).
+  destruct (fetch estate _ reset_all reterr order u es) as [u1 r1].
+  destruct (fetch facts _ (fun f => f) reterr order (es_facts u) es) as [f2 r2].
+  destruct H as ((Hf & _) & Hr). auto.
+Qed.
+
+(* … and leaves the facts alone *)
+Lemma spec_fetch_loop_facts : forall reterr es fx acc,
+  fst (fst (fetch_loop facts (spec_cond meth rules) reterr es fx acc)) = fx.
+Proof.
+  intros reterr es. induction es as [|e es IH]; intros fx acc; simpl; auto.
+  destruct (fetch_guard (e_retracted e) (e_deleted e)); auto.
+  destruct (e_retracted e); auto.
+  unfold spec_cond at 1. destruct (find _ rules) as [r|].
+  - destruct (holds meth fx (rwhen r)); auto. destruct reterr; auto.
+  - destruct reterr; auto.
+Qed.
+
+Theorem fetch_leaves_facts : forall reterr order (u : estate) es,
+  es_fx u = [] ->
+  es_facts (fst (fetch estate (rule_cond allvars meth panics_inside rules) reset_all reterr order u es)) = es_facts u.
+Proof.
+  intros reterr order u es Hfx.
+  pose proof (fetch_refines_spec_from reterr order u es Hfx) as H.
+  destruct (fetch estate _ reset_all reterr order u es) as [u1 r1].
+  destruct (fetch facts (spec_cond meth rules) (fun f => f) reterr order (es_facts u) es) as [f2 r2] eqn:E.
+  destruct H as [_ H]. simpl. rewrite H.
+  unfold fetch in E.
+  pose proof (spec_fetch_loop_facts reterr (order (unretract es)) (es_facts u) []) as L.
+  destruct (fetch_loop facts (spec_cond meth rules) reterr (order (unretract es)) (es_facts u) []) as [[f m] er].
+  simpl in L. destruct er; inversion E; subst; auto.
+Qed.
+
+Theorem fetch_reuse_is_fresh : forall reterr order (u : estate) es es',
+  es_fx u = [] ->
+  map (fun e => (e_key e, e_name e, e_sal e, e_deleted e)) es = map (fun e => (e_key e, e_name e, e_sal e, e_deleted e)) es' ->
+  snd (fetch estate (rule_cond allvars meth panics_inside rules) reset_all reterr order u es) =
+  snd (fetch estate (rule_cond allvars meth panics_inside rules) reset_all reterr order (init_estate (es_facts u)) es').
+Proof.
+  intros reterr order u es es' Hfx Hes.
+  assert (Hun: unretract es = unretract es').
+  { revert es' Hes. induction es as [|e es IH]; intros [|e' es'] H; simpl in *; try discriminate; auto.
+    injection H as H1 H2 H3 H4 H5. f_equal; [|apply IH; exact H5]. congruence. }
+  pose proof (fetch_refines_spec_from reterr order u es Hfx) as H1.
+  pose proof (fetch_refines_spec_from reterr order (init_estate (es_facts u)) es' eq_refl) as H2.
+  simpl in H2.
+  assert (Hspec: fetch facts (spec_cond meth rules) (fun f => f) reterr order (es_facts u) es =
+                 fetch facts (spec_cond meth rules) (fun f => f) reterr order (es_facts u) es').
+  { unfold fetch. rewrite Hun. reflexivity. }
+  rewrite Hspec in H1.
+  destruct (fetch estate _ reset_all reterr order u es) as [u1 r1].
+  destruct (fetch estate _ reset_all reterr order (init_estate (es_facts u)) es') as [u2 r2].
+  destruct (fetch facts _ (fun f => f) reterr order (es_facts u) es') as [f3 r3].
+  destruct H1 as [A1 _]. destruct H2 as [A2 _]. simpl. congruence.
+Qed.
+
 End Refinement.
